@@ -245,8 +245,13 @@ def run_table_sim(case):
         success = dict(zip(pairs, case['succ']))
         tmax = float('inf') if case['tmax'] == 'inf' else case['tmax']
         kw = dict(initial_infecteds=[oracles.tolabel(u) for u in case['I0']], tmin=case['tmin'], tmax=tmax, return_full_data=True)
+        single = case.get('single')         # documented: a single node may be given instead of a list (its label may be falsy, e.g. 0)
+        if single and len(case['I0']) == 1:
+            kw['initial_infecteds'] = oracles.tolabel(case['I0'][0])
         if case['R0']:
             kw['initial_recovereds'] = [oracles.tolabel(u) for u in case['R0']]
+            if single and len(case['R0']) == 1:
+                kw['initial_recovereds'] = oracles.tolabel(case['R0'][0])
         if case['durations']:
             durations = dict(zip(nodes, case['durations']))
             cnt = {}
